@@ -76,6 +76,8 @@ def parse_case(line):
         k, v = tok.split('=', 1)
         if k in ('fp0', 'fp1', 'sf0', 'sf1') or k.startswith('tx'):
             cfg[k] = [int(x) for x in v.split(',') if x]
+        elif k in ('conf', 'pconf'):
+            cfg[k] = v
         else:
             cfg[k] = int(v)
     ops = [o.split() for o in opss.split(';')]
